@@ -350,7 +350,9 @@ fn exec(desc: &Value, tr: &mut Tracer) -> anyhow::Result<()> {
                         let ev = serde_json::to_value(e.link_event).unwrap();
                         json!([q.q(e.time_sched.value, MS), q.q(e.time_to_next.value, MS),
                                q.q(e.dist_to_next.value, 10.0), e.idx_next, e.idx_next_alt, e.idx_prev,
-                               e.idx_prev_alt, ev["link_idx"], kind_of(ev["est_type"].as_str().unwrap_or("Fake"))])
+                               e.idx_prev_alt, ev["link_idx"], kind_of(ev["est_type"].as_str().unwrap_or("Fake")),
+                               // start-up allowance the dispatcher adds at this node: speed / acc_startup (0.5 mph/s)
+                               qi(e.speed.value / (0.5 * 0.44704), MS)])
                     })
                     .collect();
                 tr.emit(json!({"ev":"Net","train":ti+1,"nodes":nodes,"exact":q.exact}));
